@@ -1,10 +1,17 @@
 ENGINES = [
-    {"name": "pyvc", "path": "/verif/pyvc", "serves_properties": ["C16"],
+    {"name": "pyvc", "path": "/verif/pyvc", "serves_properties": ["C02", "C16"],
      "kind_free_text": "symbolic executor of a Python subset over the real source (ast re-read on every run) with sidecar contracts, loop invariants, callee contracts; VCs discharged by z3 (cvc5 for unknowns)"},
 ]
 NOTES = "Obligation kinds P/E/F are counted as proved; B (bounded stand-ins) are labelled and never counted. See DESIGN.md."
 NOT_APPLICABLE = {}
 CHECKS = {
+    "C02": {
+        "level": "proof",
+        "technique": "contract-based deductive verification: pyvc VCs from the real AST of spillLocalSlotsDuringRecursion with ghost execution of every appended op on an array-stack AVM state (symbolic numArgs, slot count, version), z3; bounded native stand-in end to end",
+        "text": "The per-call-site contract of the spill/restore sequences is proved for every argument count, every number of local slots, v4 (dig) and v5+ (cover/uncover) and every return shape of the callee: in front of callsub the stack is base++spilled++args, afterwards it is base++result and every local slot holds its pre-call value. The rest of the calling convention (SubroutineCall, SubroutineEval.evaluate, frame ops) is currently covered only by the bounded stand-in (generated recursive programs executed on the spec AVM against direct evaluation).",
+        "note": "trusted: spec/symavm.py, callee summary (pops n, pushes r, may clobber scratch), sorted() contract, slot ids distinct and <256 (C10), meta-lemma L-call; pyvc encoding; z3. Bounded part never counted as proved.",
+        "design_ref": "DESIGN.md 5/C02",
+    },
     "C16": {
         "level": "proof",
         "technique": "contract-based deductive verification: pyvc VCs from the real AST of multiplyFactors (loop invariant, symbolic factor count) and WideRatio.__teal__ (against the callee contract), z3; bounded native stand-in end to end",
